@@ -16,6 +16,7 @@ var extLens = []int{0, 1, 2047, 2048, 2049, 4095, 4096, 4097, 6000, 100 * 1024}
 func genC11(t *rapid.T) Case {
 	c := Case{Prof: "c11", Roots: 1, MaxDir: 100, External: true}
 	c.Keys = GenKeys(t, 2, 4, true)
+	c.CallerMD = rapid.IntRange(0, 2).Draw(t, "callerMetadata") == 0
 	kind := rapid.IntRange(0, 2).Draw(t, "shape")
 	switch kind {
 	case 0: // autocommit, content heavy, with the empty key
